@@ -7,6 +7,7 @@ structure St where
   m : Nat
   rt : RT
   trie : Trie Nat
+  bkt : Bucket
 
 def bits? (s : String) : Option Bits :=
   if s == "-" then some [] else
@@ -31,6 +32,45 @@ def sortBy {α : Type} (lt : α → α → Bool) (l : List α) : List α := l.fo
 def showBucket (b : Bucket) : String :=
   showBits b.pfx ++ "/" ++ toString b.cap ++ "=" ++ ",".intercalate ((sortBy (fun a b => a.tag < b.tag) b.nodes).map showNode)
 
+/-! branch tags: which branch of the model definitions a request went through.  Appended to the reply as " #tag"; the harness
+    strips them before comparing, counts them (`model-branch:*`) and fails the run (exit 2) when a listed branch class stays at
+    zero, so that a silent loss of coverage of the hand-written definitions cannot look like a pass. -/
+
+def addTag (rt : RT) (n : Node) : String :=
+  match rt.getBucket n.id with
+  | none => "add:no-bucket"
+  | some (p, b) =>
+    let look := if p.isEmpty && (rt.trie.lpi (fun _ => true) n.id).isNone then "root-fallback" else "lpi"
+    let branch :=
+      if !b.owns n.id then "not-owned"
+      else if b.nodes.any (fun x => x.id == n.id) then "update"
+      else if b.nodes.length < b.cap then "insert-room"
+      else
+        let eb := b.nodes.any (fun x => x.bad)
+        let es := (b.nodes.eraseP (fun x => x.bad)).any (Bucket.slower n)
+        if eb && es then "evict-bad+slow" else if eb then "evict-bad" else if es then "evict-slow"
+        else if b.owns rt.me then "split" else "refuse-off-own-path"
+    s!"add:{branch} getbucket:{look}"
+
+def closestTag (rt : RT) (target : Bits) (k : Nat) (excl : Option Bits) : String :=
+  let p := rt.closestPrefix target
+  let first := (RT.level rt.trie excl p).length
+  let all := (RT.level rt.trie excl []).length
+  let stop := if RT.brk Gen.closestBreakStrict first k then (if p.isEmpty then "single-bucket" else "first-level")
+    else if p.isEmpty then "single-bucket" else if RT.brk Gen.closestBreakStrict all k then "inner-level" else "root-reached"
+  let cut := if all > k then "cut-to-k" else "fewer-than-k"
+  let ex := match excl with
+    | none => "no-exclude"
+    | some e => if (rt.allNodes.any (fun x => x.id == e)) then "exclude-stored" else "exclude-absent"
+  s!"closest:{stop} closest:{cut} closest:{ex}"
+
+def statusTag (n : Node) : String :=
+  let rec go (i : Nat) : List (Bool × Nat) → String
+    | [] => "status:default"
+    | (onFailed, _) :: rest =>
+      if (if onFailed then decide (n.failed ≥ Gen.badFailedThreshold) else n.recent) then s!"status:rule{i}" else go (i + 1) rest
+  go 0 Gen.statusRules
+
 def step (st : St) (toks : List String) : St × String :=
   let bad : St × String := (st, "bad-op")
   match toks with
@@ -41,20 +81,25 @@ def step (st : St) (toks : List String) : St × String :=
   | ["rt.add", id, f, rc, rtt, addr, tag] =>
     match bits? id, f.toNat?, bool? rc, rtt.toNat?, addr.toNat?, tag.toNat? with
     | some id, some f, some rc, some rtt, some addr, some tag =>
-      let r := st.rt.add { id := id, failed := f, recent := rc, rtt := rtt, addr := addr, tag := tag }
+      let n : Node := { id := id, failed := f, recent := rc, rtt := rtt, addr := addr, tag := tag }
+      let r := st.rt.add n
+      let splits := r.1.trie.keys.length - st.rt.trie.keys.length
+      let stag := if splits == 0 then "" else if splits == 1 then " add:one-split" else " add:repeated-split"
       ({ st with rt := r.1 },
-        match r.2 with
+        (match r.2 with
         | .stored x => s!"stored {x.tag} {x.addr}"
         | .none => "none"
         | .keyError => "keyerror"
-        | .outOfFuel => "fuel")
+        | .outOfFuel => "fuel") ++ " #" ++ addTag st.rt n ++ stag)
     | _, _, _, _, _, _ => bad
   | ["rt.rmbad"] =>
     let r := st.rt.removeBad
-    ({ st with rt := r.1 }, Proto.showNatList (sortBy (fun a b => a < b) (r.2.map (·.tag))))
+    ({ st with rt := r.1 }, Proto.showNatList (sortBy (fun a b => a < b) (r.2.map (·.tag)))
+      ++ (if r.2.isEmpty then " #rmbad:nothing-removed" else " #rmbad:some-removed"))
   | ["rt.set", id, f, rc, rtt] =>
     match bits? id, f.toNat?, bool? rc, rtt.toNat? with
-    | some id, some f, some rc, some rtt => ({ st with rt := st.rt.setNode id f rc rtt }, "ok")
+    | some id, some f, some rc, some rtt =>
+      ({ st with rt := st.rt.setNode id f rc rtt }, "ok" ++ (if (st.rt.get id).isSome then " #setnode:hit" else " #setnode:miss"))
     | _, _, _, _ => bad
   | ["rt.status", id] =>
     match bits? id with
@@ -63,14 +108,15 @@ def step (st : St) (toks : List String) : St × String :=
   | ["node.status", f, rc] =>
     match f.toNat?, bool? rc with
     | some f, some rc =>
-      (st, if ({ id := [], failed := f, recent := rc, rtt := 0, addr := 0, tag := 0 } : Node).bad then "bad" else "live")
+      let n : Node := { id := [], failed := f, recent := rc, rtt := 0, addr := 0, tag := 0 }
+      (st, (if n.bad then "bad" else "live") ++ " #" ++ statusTag n)
     | _, _ => bad
   | ["rt.closest", target, k, excl] =>
     match bits? target, (if k == "default" then some Gen.closestDefaultK else k.toNat?) with
     | some target, some k =>
       let ex : Option (Option Bits) := if excl == "none" then some none else (bits? excl).map some
       match ex with
-      | some ex => (st, Proto.showNatList ((st.rt.closest target k ex).map (·.tag)))
+      | some ex => (st, Proto.showNatList ((st.rt.closest target k ex).map (·.tag)) ++ " #" ++ closestTag st.rt target k ex)
       | none => bad
     | _, _ => bad
   | ["rt.get", id] =>
@@ -86,7 +132,8 @@ def step (st : St) (toks : List String) : St × String :=
     | some r, some ks =>
       let res := st.rt.refresh Gen.idWidth (fun k => ks.contains k) (fun k => r % Gen.genIdDrawBound (Gen.idWidth - k.length))
       let items := res.map (fun kt => showBits kt.1 ++ ">" ++ (match kt.2 with | some id => showBits id | none => "raised"))
-      (st, "|".intercalate (sortBy (fun a b => a < b) items))
+      (st, "|".intercalate (sortBy (fun a b => a < b) items)
+        ++ (if res.isEmpty then " #refresh:none-stale" else if res.length == 1 then " #refresh:one-stale" else " #refresh:several-stale"))
     | _, _ => bad
   | ["rt.dump"] =>
     -- keys of the trie with the bucket stored there, in key order
@@ -96,7 +143,10 @@ def step (st : St) (toks : List String) : St × String :=
   | ["rt.genid", pfx, width, r] =>
     match bits? pfx, width.toNat?, r.toNat? with
     | some pfx, some w, some r =>
-      (st, match Bucket.generateId w { pfx := pfx, nodes := [], cap := 0 } r with | some id => showBits id | none => "raised")
+      let n := w - pfx.length
+      (st, (match Bucket.generateId w { pfx := pfx, nodes := [], cap := 0 } r with | some id => showBits id | none => "raised")
+        ++ (if n == 0 then " #genid:no-suffix" else if r < 2 ^ n then " #genid:in-range"
+            else if (Bucket.generateId w { pfx := pfx, nodes := [], cap := 0 } r).isNone then " #genid:overflow-raises" else " #genid:overflow-outside"))
     | _, _, _ => bad
   | ["rt.genid_old", pfx, width, r] =>
     match bits? pfx, width.toNat?, r.toNat? with
@@ -107,14 +157,38 @@ def step (st : St) (toks : List String) : St × String :=
     match bits? a, bits? b with
     | some a, some b => (st, toString (dist a b))
     | _, _ => bad
+  | ["b.new", pfx, cap] =>
+    match bits? pfx, cap.toNat? with
+    | some pfx, some cap => ({ st with bkt := { pfx := pfx, nodes := [], cap := cap } }, "ok")
+    | _, _ => bad
+  | ["b.add", id, f, rc, rtt, addr, tag] =>
+    match bits? id, f.toNat?, bool? rc, rtt.toNat?, addr.toNat?, tag.toNat? with
+    | some id, some f, some rc, some rtt, some addr, some tag =>
+      let n : Node := { id := id, failed := f, recent := rc, rtt := rtt, addr := addr, tag := tag }
+      let r := st.bkt.add n
+      ({ st with bkt := r.1 }, (if r.2 then "true " else "false ") ++ showBucket r.1
+        ++ (if !st.bkt.owns id then " #bucket-add:not-owned" else if r.2 then " #bucket-add:accepted" else " #bucket-add:refused-full"))
+    | _, _, _, _, _, _ => bad
+  | ["b.split"] =>
+    (st, match st.bkt.split with
+      | none => "none #bucket-split:refused-not-full"
+      | some (b0, b1) => showBucket b0 ++ " " ++ showBucket b1 ++ " #bucket-split:done")
   | ["t.new"] => ({ st with trie := Trie.empty }, "ok")
   | ["t.set", k, v] =>
     match bits? k, v.toNat? with
-    | some k, some v => ({ st with trie := st.trie.set k v }, "ok")
+    | some k, some v =>
+      ({ st with trie := st.trie.set k v },
+        "ok" ++ (if (st.trie.get k).isSome then " #trie-set:overwrite"
+                 else if (st.trie.find k).isEmptyNode || (match st.trie.find k with | .nil => true | _ => false) then " #trie-set:new-node" else " #trie-set:value-on-inner-node"))
     | _, _ => bad
   | ["t.del", k] =>
     match bits? k with
-    | some k => let d := st.trie.del k; ({ st with trie := d.1 }, if d.2 then "keyerror" else "ok")
+    | some k =>
+      let d := st.trie.del k
+      let tag := if (st.trie.get k).isNone then " #trie-del:absent"
+        else if d.1.isEmptyNode then " #trie-del:last-key(keyerror-quirk)"
+        else if (d.1.find k matches .nil) then " #trie-del:pruned" else " #trie-del:kept-inner-node"
+      ({ st with trie := d.1 }, (if d.2 then "keyerror" else "ok") ++ tag)
     | none => bad
   | ["t.get", k] =>
     match bits? k with
@@ -122,7 +196,11 @@ def step (st : St) (toks : List String) : St × String :=
     | none => bad
   | ["t.lpi", k] =>
     match bits? k with
-    | some k => (st, match st.trie.lpi (fun v => v != 0) k with | some (p, v) => showBits p ++ " " ++ toString v | none => "none")
+    | some k =>
+      let tag := match st.trie.lpiRel k with
+        | none => " #trie-lpi:nothing"
+        | some (p, v) => if v == 0 then " #trie-lpi:falsy-value" else if p.length == 1 then " #trie-lpi:direct-child" else " #trie-lpi:deeper"
+      (st, (match st.trie.lpi (fun v => v != 0) k with | some (p, v) => showBits p ++ " " ++ toString v | none => "none") ++ tag)
     | none => bad
   | ["t.lp", k] =>
     match bits? k with
@@ -140,4 +218,4 @@ def step (st : St) (toks : List String) : St × String :=
   | ["t.keys"] => (st, Proto.showStrList (sortBy (fun a b => a < b) (st.trie.keys.map showBits)))
   | _ => bad
 
-def main : IO Unit := Proto.run ({ m := 8, rt := RT.init [] 8, trie := Trie.empty } : St) step
+def main : IO Unit := Proto.run ({ m := 8, rt := RT.init [] 8, trie := Trie.empty, bkt := { pfx := [], nodes := [], cap := 8 } } : St) step
